@@ -230,6 +230,8 @@ def ranking_case(c, rng):
     if stratum == "bic_notype":
         rank_type = "bic"
     bic_type = rng.choice(["fixed", "random", "iiv", "mixed", "mixed"]) if rank_type == "bic" else None
+    if stratum == "bic_notype":
+        bic_type = "mixed"  # no bic_type is passed in this stratum: the documented default of calculate_bic applies
 
     picks = [rng.choice(pool) for _ in range(n + 1)]
     if stratum == "parent_models_dup":
